@@ -341,3 +341,15 @@ COMPONENT_COQ = {
     "immunity": ("Immunity.ImmunityComp", "immunity_component"),
     "crash": ("Persist.CrashComp", "crash_component"),
 }
+
+
+# concurrency-only manifestations of C06 / C17 (seeded changes showed they exist): the same stress engine as C14,
+# restricted to the phases that concern the property, under the race detector
+PROPS["C17"]["extras"] = [{"component": "stress", "race": True, "timeout": 600}]
+PROPS["C17"]["race"] = True
+PROPS["C17"]["rule"] += (" extra (race-detector binary): 12 rounds of the storage-cacher-adapter stress phase (6 writers x 150 keys + re-puts with other sizes, 6 readers doing "
+                         "Has/Get of keys whose Put has returned, a persister that is slow on every third write): an acknowledged key must be found at every later instant.")
+PROPS["C06"]["extras"] = [{"component": "stress", "race": True, "timeout": 600}]
+PROPS["C06"]["race"] = True
+PROPS["C06"]["rule"] += (" extra (race-detector binary): 12 rounds of the txcache-evict and txcache-limits stress phases; after all goroutines have finished, further insertions must leave "
+                         "the pool within threshold + the transaction just added (eviction keeps running), per-sender count limit probed at every instant.")
